@@ -421,9 +421,28 @@ func (c *grammarClient) eventV(call *ast.CallExpr, idx int, variant string, mk f
 	return evs[idx]
 }
 
+// quoteParam: arg names a parameter of a helper interpreted in place whose argument is a constant (not a byte of
+// the value being copied, which must stay a RAW event).
+func (c *grammarClient) quoteParam(e *Engine, arg ast.Expr) bool {
+	o := objOf(e.Info, arg)
+	if o == nil {
+		return false
+	}
+	for _, fr := range e.Frames() {
+		if a, ok := fr.Bind[o]; ok && constOf(e.Info, e.ResolveExpr(a)) != nil {
+			return true
+		}
+	}
+	return false
+}
+
 // Inline: helpers that write SQL but are not productions over one node are interpreted in place.
 func (c *grammarClient) Inline(e *Engine, call *ast.CallExpr, callee *types.Func, decl *ast.FuncDecl) bool {
-	return c.g.absorbed[callee]
+	if c.g.absorbed[callee] {
+		return true
+	}
+	// helpers that only compute a value (a keyword chosen by a switch, a predicate) are looked into as well
+	return !c.g.emitFns[callee] && e.pureModuleFunc(callee) && smallBody(decl) && !c.g.p.stripsParens(callee)
 }
 
 // kindsOf: the kinds the function's Expr parameter can have in st (with sub-kinds for calls).
@@ -453,6 +472,10 @@ func (c *grammarClient) kindsOf(e *Engine, st *State) []string {
 		}
 		// sub-kinds: generic call or one of the known functions, restricted by what is known about the table entry
 		nilness, needs := 0, 0 // 0 unknown, 1 nil/false, 2 nonnil/true
+		if info := st.Ext("kfinfo"); info != "" {
+			// what was known about a table-entry variable when it went out of scope
+			fmt.Sscanf(info, "%d,%d", &nilness, &needs)
+		}
 		for kv := range c.kfVar {
 			if ff := st.Get(kv); ff != nil {
 				if ff.Nil == 1 {
@@ -485,8 +508,48 @@ func (c *grammarClient) kindsOf(e *Engine, st *State) []string {
 	return out
 }
 
+// ScopeEnd: what is known about the rewrite-table entry of the current call node outlives the variable holding it
+// (`needsParens := f != nil && f.needsParens` computed inside a switch case, tested after it).
+func (c *grammarClient) ScopeEnd(e *Engine, st *State, n ast.Node) *State {
+	if len(c.kfVar) == 0 {
+		return nil
+	}
+	lo, hi := e.P.Fset.Position(n.Pos()).Offset, e.P.Fset.Position(n.End()).Offset
+	for kv := range c.kfVar {
+		if !extMentionsScope(kv, lo, hi) {
+			continue
+		}
+		nilness, needs := 0, 0
+		if ff := st.Get(kv); ff != nil {
+			if ff.Nil == 1 {
+				nilness = 1
+			} else if ff.Nil == 2 {
+				nilness = 2
+			}
+		}
+		if nf := st.Get(kv + ".needsParens"); nf != nil && nf.HasEq {
+			if nf.Eq == "true" {
+				needs = 2
+			} else {
+				needs = 1
+			}
+		}
+		if nilness != 0 || needs != 0 {
+			return st.WithExt("kfinfo", fmt.Sprintf("%d,%d", nilness, needs))
+		}
+	}
+	return nil
+}
+
 func (c *grammarClient) PostAssign(e *Engine, st *State, lhs, rhs []ast.Expr, _ ast.Stmt) *State {
 	changed := false
+	// the node parameter is replaced: what was known about its table entry no longer applies
+	for _, l := range lhs {
+		if c.xParam != nil && objOf(e.Info, l) == c.xParam && st.Ext("kfinfo") != "" {
+			st = st.WithExt("kfinfo", "")
+			changed = true
+		}
+	}
 	// x = unparen(x): a helper all of whose returns are known not to be a ParenExpr
 	if len(rhs) == 1 && len(lhs) == 1 {
 		if call, ok := ast.Unparen(rhs[0]).(*ast.CallExpr); ok {
@@ -592,6 +655,11 @@ func (c *grammarClient) PreCall(e *Engine, st *State, call *ast.CallExpr, callee
 						if s, err := strconv.Unquote(f.Eq); err == nil {
 							text, isConst = s, true
 						}
+					} else if f != nil && f.HasEq && sel.Sel.Name != "WriteString" && c.quoteParam(e, arg) {
+						// a delimiter byte handed to a shared quoting helper as a constant argument
+						if n, ok := parseInt(f.Eq); ok && n > 0 && n < 128 {
+							text, isConst = string(rune(n)), true
+						}
 					}
 					if isConst {
 						t := text
@@ -672,6 +740,9 @@ func (c *grammarClient) PreCall(e *Engine, st *State, call *ast.CallExpr, callee
 		case "quoteSQLString":
 			ev := c.event(call, 0, func() *emitEvent { return &emitEvent{Kind: "S", Arg: call.Args[1], Builder: bk, Callee: callee} })
 			return c.occ(e, st, ev, bk)
+		}
+		if c.g.absorbed[callee] && e.inlineTarget(call, callee) != nil {
+			return nil // interpreted in place: its own writes are the events
 		}
 		if c.g.emitFns[callee] {
 			var arg ast.Expr
